@@ -218,7 +218,7 @@ func lemmaTickMonotone(intervalStart uint64, intervalsPerDay uint32, t1, t2 uint
 
 //@ func (*WALFileType).readTGData
 //@ props C06 C05
-//@ requires #pos: 0 <= filePos
+//@ requires #pos: 0 <= filePos && filePos <= fileSize
 //@ ensures #ok: err == nil ==> (len(tgSerialized) >= 8 && tgID == sle64(tgSerialized, 0) && tgValid(base(tgSerialized), len(tgSerialized)))
 //@ ensures #fail: err != nil ==> (tgSerialized == nil && tgID == 0)
 //@ ensures #progress: filePos >= old(filePos)
